@@ -57,7 +57,7 @@ NEG_RESIDUE = 1e-12      # an in-image weight below -1e-12 is not a rounding res
 def plan(tier):
     if tier == 'thorough':
         return dict(shards=16, cases=9000, timeout=1800, budget_s=560)
-    return dict(shards=8, cases=1500, timeout=600, budget_s=75)
+    return dict(shards=8, cases=800, timeout=600, budget_s=70)
 
 
 def selftest():
@@ -68,6 +68,8 @@ def selftest():
 # generation
 # ----------------------------------------------------------------------
 def _gen_shape(rng, cls):
+    if cls != 'tiny_image' and rng.random() < 0.1:
+        return G.gen_elongated_shape(rng)           # axis (iv): strongly non-square frames, any class
     if cls == 'tiny_image':
         return [(1, 1), (1, int(rng.integers(1, 10))), (int(rng.integers(1, 10)), 1), (2, 2), (1, 2), (2, 3),
                 (3, 2)][int(rng.integers(0, 7))]
@@ -110,6 +112,15 @@ def _gen(case):
             error[rng.random(shape) < 0.05] = np.nan
         if cls == 'intdata' and rng.random() < 0.5:
             error = np.round(error).astype('int32')
+    # axis (i): overall magnitude of data and (independently) of the error map
+    mag, maglab = (1.0, 'int_dtype') if data.dtype.kind != 'f' or data.dtype.itemsize < 8 else G.gen_magnitude(rng)
+    emag, emaglab = G.gen_magnitude(rng)
+    if mag != 1.0:
+        data = data * mag
+    if error is not None and error.dtype.kind == 'f' and emag != 1.0:
+        error = error * emag
+    else:
+        emag, emaglab = 1.0, 'plain'
     mask = None
     if cls == 'masked':
         mask = G.gen_mask(rng, shape, str(rng.choice(['random', 'block', 'rowcol', 'dense'])))
@@ -136,15 +147,25 @@ def _gen(case):
         locs, positions = locs[:1], positions[:1]
     method = str(rng.choice(G.METHODS))
     subpixels = int(rng.integers(1, 10))
+    # axis (iii): memory layout of each array, independently
+    layout = {k: str(rng.choice(G.LAYOUTS)) for k in ('data', 'error', 'mask')}
     return dict(shape=shape, style=style, data=data, error=error, mask=mask, kind=kind, params=params, ext=ext,
-                positions=positions, locs=locs, scalar=scalar, method=method, subpixels=subpixels)
+                positions=positions, locs=locs, scalar=scalar, method=method, subpixels=subpixels,
+                mag=mag, maglab=maglab, emag=emag, emaglab=emaglab, layout=layout)
 
 
 # ----------------------------------------------------------------------
 # helpers
 # ----------------------------------------------------------------------
+_LAY = {}      # id(canonical array) -> layout code of the copies handed to the library (set per case)
+
+
 def _cp(a):
-    return None if a is None else a.copy()
+    """A fresh copy for the library (inputs are never shared with the oracle), in the case's memory layout."""
+    if a is None:
+        return None
+    code = _LAY.get(id(a))
+    return G.relayout(a, code) if code else a.copy()
 
 
 def _masks(ap, method, subpixels):
@@ -233,12 +254,44 @@ def run_case(case):
                        positions=[[round(float(x), 6), round(float(y), 6)] for x, y in g['positions']],
                        locs=g['locs'], scalar=g['scalar'], method=method, subpixels=subpix,
                        error=error is not None, mask=None if mask is None else int(mask.sum()))
-    case.digest = core.arr_digest(data, error, mask, np.array([params[k] for k in sorted(params)], float),
-                                  np.asarray(g['positions'], float)) + core.digest([cls, kind, method, subpix])[:6]
     base = {'cls': cls, 'kind': kind, 'method': method}
     kw = dict(method=method, subpixels=subpix)
+    _LAY.clear()
+    for name, arr in (('data', data), ('error', error), ('mask', mask)):
+        if arr is not None:
+            _LAY[id(arr)] = g['layout'][name]
+            case.note('layout:' + g['layout'][name])
+    case.note('magnitude_data:' + g['maglab'])
+    if error is not None:
+        case.note('magnitude_error:' + g['emaglab'])
+    if abs(g['shape'][0] - g['shape'][1]) >= 2:
+        case.note('shape:nonsquare')
 
-    ap = G.build_pixel(kind, positions, params)
+    # axis (ii): call form of every aperture argument (half of the cases plain)
+    canon, labels, posform = dict(params), {}, 'as_is'
+    theta_mine = params.get('theta')
+    ctor, pos_arg = params, positions
+    if cls not in ('region', 'sky') and rng.random() < 0.5:
+        ctor, canon, labels = G.apply_forms(rng, kind, params)
+        pos_arg, posform = G.positions_form(rng, positions, g['scalar'])
+        theta_mine = canon.get('theta')
+        for k, lab in labels.items():
+            case.note(('form_theta:' if k == 'theta' else 'form_size:') + lab)
+        case.note('form_positions:' + posform)
+    ap = G.build_pixel(kind, pos_arg, ctor)
+    if 'theta' in params:
+        import astropy.units as _u
+        held = float(ap.theta.to_value(_u.rad))
+        case.dev('theta_held_vs_given_rad', abs(held - theta_mine))
+        case.check(abs(held - theta_mine) <= 1e-14 * max(1.0, abs(theta_mine)), 'theta_held_equals_given_angle',
+                   dict(base, form=labels.get('theta', 'float')), held=held, given=theta_mine)
+        canon['theta'] = held           # conversions may differ from mine in the last bits: downstream uses the held value
+    params = canon
+    case.params.update(params={k: round(float(v), 6) for k, v in params.items()}, forms=labels, posform=posform,
+                       mag=g['mag'], emag=g['emag'], layout=g['layout'])
+    case.digest = core.arr_digest(data, error, mask, np.array([params[k] for k in sorted(params)], float),
+                                  np.asarray(g['positions'], float)) + core.digest(
+        [cls, kind, method, subpix, sorted(labels.items()), posform, sorted(g['layout'].items())])[:8]
     if cls == 'fullmask' and rng.random() < 0.5:
         # mask exactly the footprint of the first position (optionally leaving one pixel)
         m0 = _masks(ap, method, subpix)[0]
@@ -250,6 +303,7 @@ def run_case(case):
             mask[ys[j], xs[j]] = False
         case.params['mask'] = 'footprint'
         case.digest = core.arr_digest(mask) + case.digest
+        _LAY[id(mask)] = g['layout']['mask']
     wcs = None
     sky = None
     if cls == 'sky' or (cls == 'nddata' and rng.random() < 0.5):
@@ -282,7 +336,20 @@ def run_case(case):
         form = 'region'
         tbl = _region_form(case, rng, data, error, mask, kind, params, g, kw, base)
     else:
-        tbl = aperture_photometry(_cp(data), ap, error=_cp(error), mask=_cp(mask), **kw)
+        r = rng.random()
+        if r < 0.12 and np.asarray(data).dtype.kind == 'f':
+            import astropy.units as _u
+            form = 'quantity_any_class'
+            unit = _u.Unit(str(rng.choice(['Jy', 'mJy', 'adu', 'electron / s'])))
+            tbl = aperture_photometry(_cp(data) * unit, ap, error=None if error is None else _cp(error) * unit,
+                                      mask=_cp(mask), **kw)
+            case.check(_unit(tbl['aperture_sum']) == str(unit), 'unit_carried', dict(base, form=form))
+        elif r < 0.2:
+            form = 'positional'
+            tbl = aperture_photometry(_cp(data), ap, _cp(error), _cp(mask), method, subpix)
+        else:
+            tbl = aperture_photometry(_cp(data), ap, error=_cp(error), mask=_cp(mask), **kw)
+        case.note('call_form:' + form)
     mech = dict(base, form=form)
     ora_t = ora
     _table_ok(case, tbl, ora_t, positions, error is not None, mech)
@@ -296,7 +363,7 @@ def run_case(case):
     _cmp_sums(case, s2, ora, 'do_photometry_sum_vs_weightmap', m2)
     if error is not None:
         _cmp_sums(case, e2, ora, 'do_photometry_err_vs_weightmap', m2, key='err')
-    if form in ('array', 'sky'):
+    if form in ('array', 'sky', 'positional', 'quantity_any_class'):
         # the table is assembled from do_photometry: identical numbers
         case.close(_vals(tbl['aperture_sum']), _vals(s2), 'table_equals_do_photometry', mech=mech)
         if error is not None:
@@ -313,17 +380,92 @@ def run_case(case):
     # --- observation 3: ApertureMask.get_values / multiply -----------------------
     _mask_methods(case, rng, ap, data, mask, ora, kw, base)
 
+    # --- independent geometry relations (theta units, centre-in-shape) -------------
+    if cls != 'sky':
+        _rel_theta_and_center(case, rng, kind, params, theta_mine, labels, ap, data, error, mask, ora, kw, s2, e2, a2, base)
+    if rng.random() < 0.06:
+        _list_forms(case, ap, data, error, mask, kw, s2, a2, base)
+
     # --- relations ---------------------------------------------------------------
     if not ap.isscalar and len(ora) >= 1:
         _rel_singles(case, rng, kind, params, ap, data, error, mask, kw, tbl if form == 'array' else None, s2, e2, base)
     if cls == 'aplist' or rng.random() < 0.15:
         _rel_aplist(case, rng, kind, params, positions, g, data, error, mask, kw, base)
     if cls == 'linear' or rng.random() < 0.15:
-        _rel_linear(case, rng, ap, data, error, mask, ora, kw, base)
+        _rel_linear(case, rng, ap, data, error, mask, ora, kw, base, g['mag'])
     if cls in ('poke', 'masked', 'fullmask') or rng.random() < 0.3:
         _rel_poke(case, rng, ap, data, error, mask, ora, kw, s2, e2, a2, base)
     if cls != 'sky' and (cls in ('inside', 'edge', 'multi') or rng.random() < 0.2):
         _rel_reassign(case, rng, kind, params, ap, data, error, mask, kw, base)
+
+
+def _rel_theta_and_center(case, rng, kind, params, theta_mine, labels, ap, data, error, mask, ora, kw, s2, e2, a2, base):
+    """(a) the aperture as given (theta possibly a Quantity / Angle in deg, arcmin, hourangle, a numpy scalar...)
+    == the aperture built from plain floats with theta in radians: identical sums, errors and areas;
+    (b) its 'center' mask == the harness' own centre-in-shape test evaluated with the float-radian angle
+    (tie band 1e-9 px). (b) does not take any weight from the library, so a mask computed for a wrong angle
+    or size is visible even if every aperture object shares the mistake."""
+    mech = dict(base, form='theta:' + labels.get('theta', 'float'))
+    held = {k: float(getattr(ap, k).value if hasattr(getattr(ap, k), 'unit') else getattr(ap, k))
+            for k in ap._params if k != 'positions'}
+    if 'theta' in held:
+        held['theta'] = float(params['theta'])
+    if labels:
+        ref = G.build_pixel(kind, np.array(ap.positions, float), held)
+        s_r, e_r = ref.do_photometry(_cp(data), error=_cp(error), mask=_cp(mask), **kw)
+        case.close(_vals(s2), _vals(s_r), 'given_form_equals_float_radian_aperture', mech=mech)
+        if error is not None:
+            case.close(_vals(e2), _vals(e_r), 'given_form_equals_float_radian_aperture_err', mech=mech)
+        case.close(_vals(a2), _vals(ref.area_overlap(_cp(data), mask=_cp(mask), **kw)),
+                   'given_form_equals_float_radian_aperture_area', mech=mech)
+    # (b) centre-in-shape
+    th = 0.0 if theta_mine is None else float(theta_mine)
+    cm = _masks(ap, 'center', 1)
+    pos = np.atleast_2d(np.asarray(ap.positions, float))
+    for k, m in enumerate(cm[:3]):
+        box = R.box_of(m)
+        if (box[1] - box[0]) * (box[3] - box[2]) > 4000:
+            continue
+        lo, hi = R.center_weight_band(kind, held, th, float(pos[k, 0]), float(pos[k, 1]), box)
+        w = np.asarray(m.data, float)
+        bad = (lo & (w != 1.0)) | (~hi & (w != 0.0)) | ((w != 0.0) & (w != 1.0))
+        case.note('center_mask_pixels_checked', int(w.size))
+        case.note('center_mask_pixels_in_tie_band', int((hi & ~lo).sum()))
+        case.check(not bad.any(), 'center_mask_equals_point_in_shape_test', mech, n_bad=int(bad.sum()), box=list(box),
+                   n_inside=int(lo.sum()))
+
+
+def _list_forms(case, ap, data, error, mask, kw, s2, a2, base):
+    """data / error / mask documented as array_like: nested lists must be accepted and give the same numbers."""
+    from photutils.aperture import aperture_photometry
+    d = np.asarray(data)
+    if d.size > 400:
+        return
+    dl = d.tolist()
+    el = None if error is None else np.asarray(error).tolist()
+    ml = None if mask is None else np.asarray(mask).tolist()
+    for api, arg, fn in (
+            ('aperture_photometry', 'data', lambda: aperture_photometry(dl, ap, error=el, **kw)['aperture_sum']),
+            ('aperture_photometry', 'mask', (lambda: aperture_photometry(_cp(data), ap, mask=ml, **kw)['aperture_sum'])
+             if ml is not None else None),
+            ('area_overlap', 'data', lambda: ap.area_overlap(dl, **kw)),
+            ('area_overlap', 'mask', (lambda: ap.area_overlap(_cp(data), mask=ml, **kw)) if ml is not None else None)):
+        if fn is None:
+            continue
+        mech = dict(form='nested_list', api=api, arg=arg)
+        case.note(f'list_form:{api}:{arg}')
+        try:
+            out = fn()
+        except (AttributeError, TypeError) as exc:
+            case.check(False, 'array_like_list_accepted', dict(mech, exc=type(exc).__name__), msg=str(exc)[:200])
+            continue
+        case.check(True, 'array_like_list_accepted', mech)
+        if api == 'aperture_photometry' and arg == 'mask':
+            case.close(_vals(out), _vals(s2), 'list_form_equals_array_form', mech=mech)
+        elif api == 'aperture_photometry' and mask is None:
+            case.close(_vals(out), _vals(s2), 'list_form_equals_array_form', mech=mech)
+        elif api == 'area_overlap' and (arg == 'mask' or mask is None):
+            case.close(_vals(out), _vals(a2), 'list_form_equals_array_form', mech=mech)
 
 
 def _rel_reassign(case, rng, kind, params, ap, data, error, mask, kw, base):
@@ -385,7 +527,11 @@ def _make_sky(case, rng, kind, params, positions, scalar, wcs, scale, base):
     sc = wcs.pixel_to_world(pos[:, 0], pos[:, 1])
     if scalar:
         sc = sc[0]
-    sky = G.build_sky(kind, sc, params, scale, theta_offset=float(rng.uniform(-np.pi, np.pi)))
+    slabels = {}
+    sky = G.build_sky(kind, sc, params, scale, theta_offset=float(rng.uniform(-np.pi, np.pi)),
+                      rng=rng if rng.random() < 0.6 else None, labels=slabels)
+    for k, lab in slabels.items():
+        case.note(('form_sky_theta:' if k == 'theta' else 'form_sky_length:') + lab)
     ap = sky.to_pixel(wcs)
     mech = dict(base, form='to_pixel')
     # positions: world_to_pixel of the sky positions (trusted astropy call)
@@ -507,8 +653,10 @@ def _quantity_form(case, rng, data, error, mask, ap, kw, base):
     if error is not None:
         case.check(_unit(tbl['aperture_sum_err']) == str(unit), 'unit_carried', dict(mech, col='err'))
         # documented: data and error must carry the same units
+        # (an equivalent but different unit, e.g. mJy next to Jy, is documented as an error too: "the same units")
+        other = {'Jy': u.mJy, 'adu': u.Unit('1000 adu'), 'electron / s': u.Unit('electron / min')}[str(unit)]
         for d, e in ((_cp(data) * unit, _cp(error)), (_cp(data), _cp(error) * unit),
-                     (_cp(data) * unit, _cp(error) * u.m)):
+                     (_cp(data) * unit, _cp(error) * u.m), (_cp(data) * unit, _cp(error) * other)):
             try:
                 aperture_photometry(d, ap, error=e, mask=_cp(mask), **kw)
                 case.check(False, 'mixed_units_rejected', mech)
@@ -701,10 +849,10 @@ def _rel_aplist(case, rng, kind, params, positions, g, data, error, mask, kw, ba
         case.check(True, 'aplist_different_positions_rejected', mech)
 
 
-def _rel_linear(case, rng, ap, data, error, mask, ora, kw, base):
+def _rel_linear(case, rng, ap, data, error, mask, ora, kw, base, mag=1.0):
     mech = dict(base, form='linear')
     d1 = np.nan_to_num(np.asarray(data, float), nan=0.0, posinf=0.0, neginf=0.0)
-    d2 = G.gen_image(rng, d1.shape, str(rng.choice(['noise', 'ramp', 'ints'])))
+    d2 = G.gen_image(rng, d1.shape, str(rng.choice(['noise', 'ramp', 'ints']))) * mag
     a, b = float(rng.uniform(-3, 3)), float(rng.uniform(-3, 3))
     s1, _ = ap.do_photometry(d1.copy(), mask=_cp(mask), **kw)
     s2, _ = ap.do_photometry(d2.copy(), mask=_cp(mask), **kw)
